@@ -631,6 +631,33 @@ func (c *EvalCtx) evalCall(e *CallE) TV {
 			return Select(c.cur.evArray(fmt.Sprintf("ev:r%d.%d:%s", kc.C.Int64(), j, s.String()), s), idx)
 		}, "")
 		return TV{V: v, T: rt}
+	case "evArg":
+		// evArg(i, k, "Type"): argument k of logged call i, which has the given type
+		idx := c.convert(c.eval(e.Args[0]), types.Typ[types.Uint64]).V.(*Term)
+		kc := c.eval(e.Args[1])
+		sl, ok := e.Args[2].(*StrLit)
+		if kc.C == nil || !ok {
+			evalFail("evArg(i, k, \"Type\")")
+		}
+		rt := c.resolveType(sl.Val)
+		j := -1
+		v := buildShape(rt, func(_ string, s *Sort) *Term {
+			j++
+			return Select(c.cur.evArray(evArrayName(int(kc.C.Int64()), j, s), s), idx)
+		}, "")
+		return TV{V: v, T: rt}
+	case "evIs":
+		// evIs(i, "Method"): entry i of the ghost event log is a call of Method
+		idx := c.convert(c.eval(e.Args[0]), types.Typ[types.Uint64]).V.(*Term)
+		ms, ok := e.Args[1].(*StrLit)
+		if !ok {
+			evalFail("evIs(i, \"Method\")")
+		}
+		t, err := c.eng.forwardedTerm(c.cur, idx, ms.Val, nil)
+		if err != nil {
+			evalFail("%v", err)
+		}
+		return TV{V: t, T: types.Typ[types.Bool]}
 	case "typeIs":
 		x := c.eval(e.Args[0])
 		var t types.Type
@@ -645,7 +672,12 @@ func (c *EvalCtx) evalCall(e *CallE) TV {
 		return TV{V: Eq(ifaceTag(x.V.(*Term)), c.eng.typeTag(t)), T: types.Typ[types.Bool]}
 	case "payload":
 		x := c.eval(e.Args[0])
-		t := c.tryType(e.Args[1])
+		var t types.Type
+		if sl, ok := e.Args[1].(*StrLit); ok {
+			t = c.resolveType(sl.Val)
+		} else {
+			t = c.tryType(e.Args[1])
+		}
 		if t == nil {
 			evalFail("payload: unknown type %s", ExprString(e.Args[1]))
 		}
@@ -911,7 +943,19 @@ func convertNum(t *Term, from, to types.Type, assume func(*Term)) *Term {
 		if fw == tw {
 			return t
 		}
-		return fpToBits(FPOp("(_ to_fp "+fpDims(tw)+")", fpSort(tw), RNE, toFP(t)), tw, assume)
+		r := fpToBits(FPOp("(_ to_fp "+fpDims(tw)+")", fpSort(tw), RNE, toFP(t)), tw, assume)
+		// A-FPCONV: CVTSS2SD / CVTSD2SS on a NaN keep the sign, set the quiet bit and keep the
+		// (leading) payload bits; the FloatingPoint theory itself leaves the NaN pattern open.
+		if r.Op == "app" && r.Name == "fpbits64" && fw == 32 {
+			pat := BVBin("bvor", BVBin("bvor", BVBin("bvshl", ZeroExt(Extract(31, 31, t), 64), BVU(63, 64)), BVU(0x7ff8000000000000, 64)),
+				BVBin("bvshl", ZeroExt(Extract(22, 0, t), 64), BVU(29, 64)))
+			assume(Implies(fpIsNaN(t), Eq(r, pat)))
+		} else if r.Op == "app" && r.Name == "fpbits32" && fw == 64 {
+			pat := BVBin("bvor", BVBin("bvor", BVBin("bvshl", ZeroExt(Extract(63, 63, t), 32), BVU(31, 32)), BVU(0x7fc00000, 32)),
+				Extract(31, 0, BVBin("bvlshr", ZeroExt(Extract(51, 0, t), 64), BVU(29, 64))))
+			assume(Implies(fpIsNaN(t), Eq(r, pat)))
+		}
+		return r
 	case isInteger(from) && isFloat(to):
 		op := "(_ to_fp_unsigned " + fpDims(tw) + ")"
 		if isSigned(from) {
